@@ -12,6 +12,7 @@
 #include <time.h>
 #include <sys/wait.h>
 #include <fcntl.h>
+#include <dirent.h>
 #include <sys/mman.h>
 
 extern int __lsan_do_recoverable_leak_check(void) __attribute__((weak));
@@ -68,6 +69,16 @@ static int scan_cb(YR_SCAN_CONTEXT* ctx, int msg, void* data, void* ud)
   return CALLBACK_CONTINUE;
 }
 
+// number of open descriptors of this process (a compile must not change it)
+static int count_fds(void)
+{
+  DIR* d = opendir("/proc/self/fd"); if (!d) return -1;
+  int n = 0; struct dirent* e;
+  while ((e = readdir(d)) != NULL) if (e->d_name[0] != '.') n++;
+  closedir(d);
+  return n;
+}
+
 static double now_s(void) { struct timespec t; clock_gettime(CLOCK_MONOTONIC, &t); return t.tv_sec + t.tv_nsec * 1e-9; }
 
 static void child(char mode, uint8_t* src, size_t len, int rfd)
@@ -76,6 +87,7 @@ static void child(char mode, uint8_t* src, size_t len, int rfd)
   CB c; memset(&c, 0, sizeof c); c.msgok = 1; c.lineok = 1;
   YR_COMPILER* comp = NULL; YR_RULES* rules = NULL;
   // growth flavour: every arena allocation moves its buffer (g) / tiny initial buffers (i), so a pointer kept across an allocation is dangling at once
+  int fds_before = count_fds();
   if (strchr(opts, 'g')) yr_verif_arena_always_move = 1;
   if (strchr(opts, 'i')) yr_verif_arena_initial_size = 64;
   if (yr_compiler_create(&comp) != ERROR_SUCCESS) _exit(30);
@@ -141,6 +153,7 @@ static void child(char mode, uint8_t* src, size_t len, int rfd)
       yr_compiler_destroy(c2);
     }
   }
+  int fds_delta = count_fds() - fds_before;
   int leaks = __lsan_do_recoverable_leak_check ? __lsan_do_recoverable_leak_check() : 0;
   char kind[64]; int k = 0, words = 0;
   for (const char* p = c.first; *p && k < 60; p++)
@@ -152,8 +165,8 @@ static void child(char mode, uint8_t* src, size_t len, int rfd)
   kind[k] = 0;
   for (char* p = c.l0msg; *p; p++) if (*p == ' ') *p = '_';
   char res[1024];
-  int l = snprintf(res, sizeof res, "errs=%d cb=%d warn=%d msgok=%d lasterr=%s lineok=%d l0=%d l0eof=%d rules=%d scan=%s destroy=1 follow=%s kind=%s l0msg=%.60s diag=%s", errs, c.errs, c.warns, c.msgok,
-                   errname(lasterr), c.lineok, c.l0, c.l0eof, got, scan, follow, k ? kind : "-", c.l0msg[0] ? c.l0msg : "-", c.ndiag ? c.diag : "-");
+  int l = snprintf(res, sizeof res, "errs=%d cb=%d warn=%d msgok=%d lasterr=%s lineok=%d l0=%d l0eof=%d rules=%d scan=%s destroy=1 follow=%s fds=%d kind=%s l0msg=%.60s diag=%s", errs, c.errs, c.warns, c.msgok,
+                   errname(lasterr), c.lineok, c.l0, c.l0eof, got, scan, follow, fds_delta, k ? kind : "-", c.l0msg[0] ? c.l0msg : "-", c.ndiag ? c.diag : "-");
   if (write(rfd, res, l) != l) _exit(24);
 #ifdef VERIF_COV
   __gcov_dump();
